@@ -18,6 +18,7 @@ import (
 	"sort"
 	"strings"
 	"sync"
+	"sync/atomic"
 
 	"github.com/makiuchi-d/gozxing"
 	"github.com/makiuchi-d/gozxing/aztec"
@@ -31,6 +32,7 @@ import (
 
 	"verifharness/fw"
 	"verifharness/ref/azref"
+	"verifharness/ref/onedref"
 )
 
 // Op is one self-contained library call sequence with a canonical result.
@@ -157,11 +159,57 @@ func init() {
 	sort.Strings(rssFiles)
 }
 
+// SharedHints is ONE hints map handed to readers by all goroutines, the way an application keeps
+// its decode settings in a package-level variable.  The harness never writes to it after init;
+// a library write (or a result that depends on its iteration order) is the library's doing.
+var (
+	sharedPoints int64
+	SharedHints  = map[gozxing.DecodeHintType]interface{}{
+		gozxing.DecodeHintType_TRY_HARDER: true,
+		gozxing.DecodeHintType_NEED_RESULT_POINT_CALLBACK: gozxing.ResultPointCallback(func(p gozxing.ResultPoint) {
+			atomic.AddInt64(&sharedPoints, 1)
+		}),
+		gozxing.DecodeHintType_CHARACTER_SET: "UTF-8",
+	}
+)
+
+// SharedHintsIntact reports whether the shared map still has its three entries.
+func SharedHintsIntact() string {
+	if len(SharedHints) != 3 {
+		return fmt.Sprintf("the shared hints map has %d entries, 3 were put in", len(SharedHints))
+	}
+	for _, k := range []gozxing.DecodeHintType{gozxing.DecodeHintType_TRY_HARDER, gozxing.DecodeHintType_NEED_RESULT_POINT_CALLBACK, gozxing.DecodeHintType_CHARACTER_SET} {
+		if _, ok := SharedHints[k]; !ok {
+			return fmt.Sprintf("the shared hints map lost its entry %v", k)
+		}
+	}
+	return ""
+}
+
+// grayRow renders a module row with quiet zones as a gray image.
+func grayRow(mod []bool, quiet, scale, height int) *image.Gray {
+	w := (2*quiet + len(mod)) * scale
+	img := image.NewGray(image.Rect(0, 0, w, height))
+	for i := range img.Pix {
+		img.Pix[i] = 255
+	}
+	for y := 0; y < height; y++ {
+		for i, m := range mod {
+			if m {
+				for k := 0; k < scale; k++ {
+					img.Pix[y*img.Stride+(quiet+i)*scale+k] = 0
+				}
+			}
+		}
+	}
+	return img
+}
+
 // BuildOps draws n operations over all symbologies.
 func BuildOps(r *fw.Rand, n int) []Op {
 	ops := make([]Op, 0, n)
 	for len(ops) < n {
-		switch k := r.Intn(18); {
+		switch k := r.Intn(21); {
 		case k < 7: // 1-D write + read
 			w := oneD[r.Intn(len(oneD))]
 			content := w.gen(r)
@@ -176,6 +224,7 @@ func BuildOps(r *fw.Rand, n int) []Op {
 				}
 			}
 			tryHarder := rot != 2 || r.Bool()
+			shared := r.Intn(3) == 0
 			ops = append(ops, Op{"1d/" + w.name, func() string {
 				bm, err := w.mk().Encode(content, w.format, width, height, nil)
 				out := matrixHash(bm, err)
@@ -197,6 +246,9 @@ func BuildOps(r *fw.Rand, n int) []Op {
 				dh := map[gozxing.DecodeHintType]interface{}{}
 				if tryHarder {
 					dh[gozxing.DecodeHintType_TRY_HARDER] = true
+				}
+				if tryHarder && shared {
+					dh = SharedHints
 				}
 				res, rerr := rd.Decode(bmp, dh)
 				return out + fmt.Sprintf(" rot%d -> ", rot) + canon(res, rerr)
@@ -367,6 +419,52 @@ func BuildOps(r *fw.Rand, n int) []Op {
 				}
 				return fmt.Sprintf("rs %v %v", word, fmt.Sprint(word) == fmt.Sprint(orig))
 			}})
+		case k < 20: // reference-built UPC/EAN rows with 2- and 5-digit add-ons, read under the shared hints map
+			var main []bool
+			var rd func() gozxing.Reader
+			kind := r.Intn(4)
+			switch kind {
+			case 0:
+				d := digits(r, 12)
+				main, rd = onedref.EAN13Pattern(d+fmt.Sprint(onedref.Mod10(d))), oned.NewEAN13Reader
+			case 1:
+				d := digits(r, 7)
+				main, rd = onedref.EAN8Pattern(d+fmt.Sprint(onedref.Mod10(d))), oned.NewEAN8Reader
+			case 2:
+				d := digits(r, 11)
+				main, rd = onedref.UPCAPattern(d+fmt.Sprint(onedref.Mod10(d))), oned.NewUPCAReader
+			default:
+				d := digits(r, 12)
+				main, rd = onedref.EAN13Pattern(d+fmt.Sprint(onedref.Mod10(d))), func() gozxing.Reader { return oned.NewMultiFormatUPCEANReader(nil) }
+			}
+			var addon []bool
+			switch r.Intn(3) {
+			case 0:
+				v := r.Intn(100)
+				addon = onedref.EAN2AddOn(v, v)
+			case 1:
+				d := digits(r, 5)
+				addon = onedref.EAN5AddOn(d, onedref.EAN5Check(d))
+			}
+			pat := append([]bool{}, main...)
+			if addon != nil {
+				for i := 0; i < onedref.AddOnGap(); i++ {
+					pat = append(pat, false)
+				}
+				pat = append(pat, addon...)
+			}
+			scale, height := 1+r.Intn(3), 1+r.Intn(12)
+			flip := r.Intn(3) == 0
+			ops = append(ops, Op{"upcean+addon", func() string {
+				img := grayRow(pat, 12, scale, height)
+				bmp, _ := gozxing.NewBinaryBitmapFromImage(img)
+				if flip { // upside down: found on the reversed-row attempt (the add-on is then on the wrong side)
+					bmp, _ = bmp.RotateCounterClockwise()
+					bmp, _ = bmp.RotateCounterClockwise()
+				}
+				res, err := rd().Decode(bmp, SharedHints)
+				return fmt.Sprintf("upcean+addon kind %d flip %v -> %s", kind, flip, canon(res, err))
+			}})
 		default: // grid sampler + binarisers + ECI lookups on private data
 			seed := r.Uint64()
 			ops = append(ops, Op{"grid", func() string {
@@ -482,6 +580,11 @@ func Round(r *fw.Rand, k, procs, opsPerG int) (diverged string, nops int, names 
 			if got[g][j] != want[oi] && diverged == "" {
 				diverged = fmt.Sprintf("goroutine %d op %s: concurrent result %q, sequential result %q", g, ops[oi].Name, clip(got[g][j]), clip(want[oi]))
 			}
+		}
+	}
+	if diverged == "" {
+		if msg := SharedHintsIntact(); msg != "" {
+			diverged = "hints map shared by the goroutines: " + msg
 		}
 	}
 	return
